@@ -578,9 +578,11 @@ func (e *specEnv) index(base, idx Val) Val {
 		}
 		return Val{T: sel(base.T, to64(i)), Ty: u.Elem()}
 	case *types.Map:
+		// Go semantics: the zero value for a nil map or an absent key
 		k := e.coerce(idx, u.Key())
-		_, val, _ := tr.C.mapKeys(tr.C.sortOf(u.Key()), tr.C.sortOf(u.Elem()))
-		return Val{T: sel(sel(tr.C.hget(e.heap, val), base.T), k.T), Ty: u.Elem()}
+		dom, val, _ := tr.C.mapKeys(tr.C.sortOf(u.Key()), tr.C.sortOf(u.Elem()))
+		present := and(not(eq(base.T, "0")), sel(sel(tr.C.hget(e.heap, dom), base.T), k.T))
+		return Val{T: ite(present, sel(sel(tr.C.hget(e.heap, val), base.T), k.T), tr.C.zero(u.Elem())), Ty: u.Elem()}
 	case *types.Basic:
 		if isString(base.Ty) {
 			i := e.coerce(idx, tInt)
